@@ -13,7 +13,7 @@ BASE_NOTE = ("Trusted base: rustc nightly's type checker, MIR construction and I
 CLAIMS = {
     "C02": ("durability/ordering protocol + error discipline (MUSTPASS/ORDER/GUARDED/ORIGIN over MIR CFGs); re-evaluates the manifest reader/replay/rollover rules C13.1/5/6",
             "Decides the protocol shape that crash safety needs on every path: ack only after the covering fdatasync, SST "
-            "sync before use, manifest write<flush<sync<rollover, link<manifest<install, log retired last, no storage error "
+            "sync before use, manifest write<flush<sync<rollover, link<manifest<install, log retired last and only on the Ok edge of the ingest, no storage error "
             "dropped or unwrapped, no truncating open of data files.  Does not enumerate crash states.", "§4 C02"),
     "C09": ("checksum-gate dominance, sanity-gate chain, bounded-allocation slice, R-ERR + explicit-panic audit + implicit-bounds audit (array-bounds dataflow on byte buffers) over REACH(read entry points)",
             "Decides that every consumer of file bytes is dominated by the equal edge of its CRC comparison, that the "
@@ -37,7 +37,7 @@ CLAIMS = {
             "moved to trash/ only under dec()==true and strong_count==1, versions are referenced before publication, the "
             "verifier unlinks only what a durable intent names and only after verify_one, the orphan scan skips roll-ups and "
             "only renames, folds fragments in numeric order and runs only while the tree is being opened; a new version is derived from the "
-            "version current at installation; scan cursors own the VersionRef pinning their files.  Does not decide that reference counts are "
+            "version current at installation and installed only after the manifest edit removing its predecessor's files (C02.4 re-evaluated); scan cursors own the VersionRef pinning their files.  Does not decide that reference counts are "
             "numerically right for every history.", "§4 C08"),
     "C04": ("equality-gate table (GUARDED fail-closed Setsum comparisons), ORDER of Edit::info I/O/D before apply, accumulator MUSTPASS, loop-body MUSTPASS for GC discard",
             "Decides presence and placement of every balance gate and accumulator: compaction commit only on input == output + "
@@ -66,12 +66,13 @@ CLAIMS = {
             "raw derefs only under the cache lock; a wait that re-waits on a private predicate is used only where every writer of "
             "that predicate holds the mutex slept with, every other wait is re-entered in a loop.  Does not decide "
             "exactly-once/ordering under all interleavings.", "§4 C18"),
-    "C20": ("whole-program Acquires/MayWait summaries (call graph + typed Drop glue) -> lock-order graph cycles; condvar wait/notify discipline via HELD (Mutex and RwLock guards); ORDER/MUSTPASS for announcements and claim release; re-evaluates the coalescing-queue and wait-list rules C18.1/2/5 that every write passes through",
+    "C20": ("whole-program Acquires/MayWait summaries (call graph + typed Drop glue) -> lock-order graph cycles; condvar wait/notify discipline via HELD (Mutex and RwLock guards); ORDER/MUSTPASS for announcements, claim release and the mandatory-compaction emit; re-evaluates the coalescing-queue and wait-list rules C18.1/2/5 that every write passes through",
             "Decides deadlock-freedom structure: no two locks are taken in both orders (one flag-gated pair checked and excepted), "
             "waits re-check their predicate inside one critical section, notifications cannot race a predicate check, the set of "
             "(lock held, condvar waited) pairs equals a triaged table, every awaited state change is announced, failed compactions "
-            "release their claim.  Does not decide that a relieving compaction is always selectable, nor fairness.", "§4 C20"),
-    "C01": ("ORDER/GUARDED/ORIGIN over KeyValueStore::load, Version::load, open/recover; re-evaluates the sibling rules a point read depends on (C06.1/3/4/5, C02.4/5, C10.2, C05.1/5, C13.5, C08.4)",
+            "release their claim, a compaction chosen as mandatory is emitted on every path under no score comparison (only the optional "
+            "candidate is score-gated).  Does not decide that a relieving compaction is always found by the search, nor fairness.", "§4 C20"),
+    "C01": ("ORDER/GUARDED/ORIGIN over KeyValueStore::load, Version::load, open/recover; re-evaluates the sibling rules a point read depends on (C06.1/3/4/5, C02.4/5, C10.2, C05.1/5, C13.5, C08.4/6); worklist-relaxation MUSTPASS in recover",
             "Decides the lookup-precedence and freshness skeleton: mem before imm before tree with early exit on hit or tombstone; "
             "L0 newest-first before deeper levels; batches stamped with the fresh sequence number before use; publish after "
             "durable; imm cleared after ingest; sequence numbers restart above every existing timestamp; plus the snapshot/visibility, "
@@ -79,8 +80,9 @@ CLAIMS = {
             "conflict predicate of concurrent compactions is closed-interval intersection in levels and keys (read as a conjunction "
             "of comparisons), a compaction is expanded only by files contained in its range, an ingest derives the installed "
             "version from a snapshot re-read after its stall wait, and the memtable answers for exactly the requested key at the "
-            "requested timestamp with versions ordered newest first.  Does not decide "
-            "compaction input closure, recovery level assignment, bloom/block search arithmetic.", "§4 C01"),
+            "requested timestamp with versions ordered newest first; recovery's level propagation re-queues every component "
+            "whose level it raises (worklist relaxation).  Does not decide "
+            "compaction input closure, the rest of recovery level assignment, bloom/block search arithmetic.", "§4 C01"),
     "C03": ("ORIGIN chains (pipeline composition), loop-body MUSTPASS (every file wrapped and merged), GUARDED (overlap skip) plus the overlap predicate's decision table over (bound kinds x key order) read from MIR, HELD (snapshot capture); re-evaluates C11.1/4/5/6, C06.3/5, C05.5",
             "Decides pipeline composition: every scan is Bounds(Pruning(Merging(components))) with the captured timestamp and "
             "the caller's bounds, no component (mem, imm, any L0 file, any overlapping deeper file) can be left out, the snapshot "
@@ -88,7 +90,7 @@ CLAIMS = {
     "C11": ("SIBLINGS forwarding tables and mirror-image rules (bounds next/prev, concat seek/next/prev, pruning seek/next), GUARDED key-before-value tests, ORDER on the merging cursor's direction switch",
             "Decides sibling consistency of the combinators: value() presence tests are tombstone tests (key known Some), wrappers "
             "forward m to m and never cross key/value, a direction switch advances every child before flipping the comparator "
-            "and rebuilding the heap, every seek positions every child, pruning filters by timestamp <= snapshot, recognises "
+            "and rebuilding the heap and moves children by single steps only (no re-seek), every seek positions every child, pruning filters by timestamp <= snapshot, recognises "
             "tombstones and accepts an entry only after screening it against skip_key (seek and next alike); the bounds cursor "
             "re-checks both bounds after every step in both directions; the concatenating cursor leaves an exhausted child.  "
             "Does not decide the combinator equivalences for all inputs.", "§4 C11"),
@@ -121,11 +123,13 @@ CLAIMS = {
             "descending byte map is an involution that keeps the continuation bit and reverses data-bit order (its prefix-order "
             "clause fails: known finding F14).  Order preservation in general, prefix contiguity and value round-trip are NOT "
             "decided.", "§4 C16, §10"),
-    "C10": ("ORDER/MUSTPASS/SIBLINGS over builder put/del/seal, ORIGIN of index keys and final-block fields, maximum encoded sizes computed from field tables of the expanded derives vs. evaluated size constants",
+    "C10": ("ORDER/MUSTPASS/SIBLINGS over builder put/del/seal, ORIGIN of index keys and final-block fields, maximum encoded sizes computed from field tables of the expanded derives vs. evaluated size constants; path-wise comparison-guard proof for divide_keys",
             "Decides builder gates and format tables: length/size/sort-order gates precede every mutation and agree between put "
             "and del; accepted entries reach block, bloom filter, setsum and key-range metadata; seal writes data < index < "
             "filter < final block < flush < sync; size constants bound the encoded sizes of their messages and the trailer is "
-            "the last packed fixed64.  Does not decide enumeration/seek/lookup correctness of the cursors.", "§4 C10"),
+            "the last packed fixed64; a block seek ends on a restart-anchored scan; the dividing key between two blocks is shortened "
+            "only on paths whose comparisons imply it stays below the next block's first key (path-wise guard proof) and otherwise is "
+            "the left key with its own timestamp.  Does not decide enumeration/seek/lookup correctness of the cursors.", "§4 C10"),
     "C19": ("writer/reader table agreement of the serialised index: TABLE reading of the derived stub decoders' (number, wire type) switch trees vs. the field numbers and append kinds of the hand-written Builder writers (ORIGIN of builder receivers through helpers and sub-builder scopes), Tag constants of hand-written readers",
             "Decides ONE clause of C19, `serialising and re-parsing the index changes nothing`, and of that only its structural "
             "necessary condition: every field-by-field index writer emits exactly the (field number, wire type) set its reader's "
